@@ -1,4 +1,4 @@
-import EinxModel.Proofs.RejectRoot
+import EinxModel.Proofs.RejectConcat
 /-!
 # C03 (parser) — ill-formed descriptions are rejected with `SyntaxError`, never a tree, never an internal error
 
@@ -12,6 +12,8 @@ The defects are stated on the *string* (no token, no tree): `alphabetChar`, `bal
 * `parse_no_internal` — every string yields a tree or a `SyntaxError`; none of the five internal outcomes that
   `parse_total_cases` (C12) leaves open is reachable with the constants of the source as extracted on this run.
 * `parse_rejects_bad_char` — a character outside the token alphabet: `SyntaxError` "The expression '…' is not allowed" (l.73).
+* `parse_rejects_unwrapped_concat` — a `+` outside every pair of delimiters (`atDepth0 '+'`): `SyntaxError` ("Concatenated axes
+  must be wrapped in parentheses" l.216, or an earlier one), never a tree.
 * `parse_rejects_unbalanced` — delimiters `( ) [ ]` not properly nested: `SyntaxError`; if every token is valid, exactly
   "closing … not opened" (l.118) for a closer that does not match and "opening … not closed" (l.128) for leftover openers;
   conversely the delimiter stack accepts every balanced string (`stack_accepts_iff_balanced`).
@@ -161,6 +163,16 @@ theorem stack_accepts_iff_balanced (text : Str) (toks : List Token) (hl : lex te
     rw [this] at hs
     exact hs
 
+/-! ## Operator misuse: concatenation outside parentheses -/
+
+/-- **`parse_rejects_unwrapped_concat`**: a string with a `+` that stands outside every pair of delimiters (`atDepth0 '+' text []`:
+    the bracket scan has an empty stack at that position) is rejected with a `SyntaxError` — the rule "Concatenated axes must be
+    wrapped in parentheses" (l.216) for *every* such string, whatever the rest of it looks like (another syntax error may be
+    reported first; the carets are inside the string). -/
+theorem parse_rejects_unwrapped_concat (text : Str) (h : atDepth0 '+' text [] = true) :
+    ∃ k pos alts, parseOp text = .error (.syntax k pos alts) ∧ ∀ p ∈ pos, 0 ≤ p ∧ p < text.length :=
+  parse_rejected_is_syntax_error text (parseOp_plus_depth0 text h)
+
 /-- An accepted description is balanced and consists of alphabet characters only (necessary conditions of `parse_op`'s domain). -/
 theorem parse_ok_necessary (text : Str) (x : Expr) (h : parseOp text = .ok x) :
     balanced text = true ∧ ∀ c ∈ text, alphabetChar c = true := by
@@ -204,6 +216,18 @@ example : ∃ pos, parseOp "a é -> a".toList = .error (.syntax .invalidToken po
 
 example : ∃ k pos, parseOp "a [b (c".toList = .error (.syntax k pos []) ∧ (k = .invalidToken ∨ k = .closingNotOpened ∨ k = .openingNotClosed) :=
   parse_rejects_unbalanced _ (by decide)
+
+/-- Unwrapped concatenations: the defect predicate on examples, the reported sites, and the theorem instantiated. -/
+example : atDepth0 '+' "a + b".toList [] = true ∧ atDepth0 '+' "a, b + c -> d".toList [] = true ∧ atDepth0 '+' "(a + b) c".toList [] = false ∧
+    atDepth0 '+' "[a + b]".toList [] = false := by decide
+
+example :
+    [errOf (parseOp "a + b".toList), errOf (parseOp "a, b + c -> d".toList), errOf (parseOp "a + [b]".toList), errOf (parseOp "(a + b) c".toList)] =
+    [some (.syntax .concatNotWrapped [0, 1, 2, 3, 4] []), some (.syntax .concatNotWrapped [3, 4, 5, 6, 7] []),
+     some (.syntax .concatOperand [4, 5, 6, 2] []), none] := by decide +kernel
+
+example : ∃ k pos alts, parseOp "a, b + c -> d".toList = .error (.syntax k pos alts) ∧ ∀ p ∈ pos, 0 ≤ p ∧ p < 13 :=
+  parse_rejects_unwrapped_concat _ (by decide)
 
 /-- `parse_no_internal` has both branches inhabited. -/
 example : errOf (parseOp "a [b c]... (d + 1) -> a".toList) = none ∧ errOf (parseOp "a -> b -> c".toList) = some (.syntax .multipleArrows [2, 3, 7, 8] []) := by
